@@ -159,9 +159,10 @@ func HandleBulkBody(postBody []byte, ctx *fasthttp.RequestCtx, rid uint64, myid 
 	remainingPostBody := postBody
 	for {
 		line, remainingPostBody = utils.ReadLine(remainingPostBody)
-		if len(remainingPostBody) == 0 {
+		if len(remainingPostBody) == 0 && len(line) == 0 {
 			break
 		}
+		maxRecordSizeExceeded = false
 
 		inCount++
 		if inCount >= len(items) {
@@ -239,6 +240,7 @@ func HandleBulkBody(postBody []byte, ctx *fasthttp.RequestCtx, rid uint64, myid 
 				error_response := utils.BulkErrorResponse{
 					ErrorResponse: *utils.NewBulkErrorResponseInfo("request entity too large", "request_entity_exception"),
 				}
+				overallError = true
 				responsebody["index"] = error_response
 				responsebody["status"] = 413
 				items[inCount-1] = responsebody
